@@ -43,8 +43,8 @@ THRESHOLD_KINDS = ["pyint", "pyfloat"] + NP_INTS + ["float64", "float32", "float
 
 
 def merge_index(case):
-    """position of the merge under test: the last op"""
-    return len(case["ops"]) - 1
+    """position of the merge under test: the last op, unless the case says otherwise ("m": ops may follow the merge)"""
+    return case.get("m", len(case["ops"]) - 1)
 
 
 def amount_of(op):
@@ -243,21 +243,665 @@ def gen_carrier1(rng):
     return {"kind": "hist1", "ops": [init, op], "tags": [x for x in ("gapped", "tiny_gap") if t[x]] + tags + ["stream:carrier1"]}
 
 
+# ------------------------------------------------------------------ every binning KIND and STATE under merge_bins
+# The older streams give merge_bins histograms over explicit pairs / static objects.  Here the axis binning is whatever the
+# facade makes of a named method (h1(data, "fixed_width", bin_width=w, adaptive=True), "human" / "pretty", "integer",
+# "exponential", "quantile", an integer bin count -> NumpyBinning, an edge array) or a binning object (FixedWidthBinning with a
+# shift, StaticBinning with gaps, NumpyBinning), in the states a histogram can be in before the merge (adaptive from the
+# constructor, switched to adaptive afterwards, grown by fills outside its range, started without bins and filled, frozen
+# again), in 1-D and on each axis of an N-d histogram.  The property pins the merged EDGES exactly -- the run's first left
+# edge to its last right edge, the shorter last run keeps its true right edge -- which the older clauses already state on the
+# observed bins of the source; in addition the merged histogram must read the same through every representation of its bins
+# and, when filled outside its range afterwards, keep the merged bins and their contents.
+KINDS_SHARE = 0.16            # share of the generated cases (the older streams keep their case counts: N_QUICK was raised)
+FIXED_WIDTHS = [1.0, 0.5, 0.25, 2.0, 2.5, 0.1, 0.3]
+EXP_VALUES = [0.5, 0.75, 1.0, 1.5, 2.0, 3.0, 4.0, 6.0, 8.0, 12.0, 16.0, 24.0, 32.0, 50.0, 100.0, 128.0]
+
+
+def _np():
+    import numpy as np
+    return np
+
+
+def _axis_args(spec):
+    """(bins argument, keyword arguments) the facade gets for one axis"""
+    from .. import impl1
+    np = _np()
+    k = spec["k"]
+    if k == "obj":
+        return impl1.mk_binning(spec["binning"]), {}
+    if k == "edges":
+        return np.array([impl1.fl(x) for x in spec["edges"]]), {}
+    if k == "count":
+        return int(spec["n"]), {}
+    kw = {}
+    if spec.get("bin_width") is not None:
+        kw["bin_width"] = impl1.fl(spec["bin_width"])
+    if spec.get("bin_count") is not None:
+        kw["bin_count"] = int(spec["bin_count"])
+    if spec.get("q") is not None:
+        kw["q"] = tuple(impl1.fl(x) for x in spec["q"])
+    if spec.get("adaptive"):
+        kw["adaptive"] = True
+    return k, kw
+
+
+def _make(op):
+    """the histogram of a "make" op: the facade called as a user would (named methods with their arguments; for N-d the
+    arguments as per-axis lists)"""
+    from .. import impl1
+    import physt
+    np = _np()
+    specs = op["specs"]
+    w = op.get("weights")
+    if w is not None:
+        w = np.array([impl1.fl(x) for x in w], dtype=np.dtype(op.get("wkind") or "float64"))
+    if op["dim"] == 1:
+        data = np.array([impl1.fl(x) for x in op["data"]], dtype=float)
+        bins, kw = _axis_args(specs[0])
+        return physt.h1(data, bins, weights=w, **kw)
+    d = op["dim"]
+    data = np.array([[impl1.fl(x) for x in r] for r in op["data"]], dtype=float).reshape(-1, d)
+    args = [_axis_args(sp) for sp in specs]
+    keys = sorted({k for _, kw in args for k in kw})
+    kwargs = {k: [kw.get(k) for _, kw in args] for k in keys}
+    if op.get("names") is not None:
+        kwargs["axis_names"] = list(op["names"])
+    bins = [a for a, _ in args]
+    if op.get("entry") == "h2" and d == 2:
+        return physt.h2(data[:, 0], data[:, 1], bins, weights=w, **kwargs)
+    return physt.h(data, bins, weights=w, **kwargs)
+
+
+def _reprs(h, nd):
+    """every way the histogram reports its bins (canonical rational strings; None where physt gives nothing)"""
+    from ..core import nrs
+    np = _np()
+
+    def lst(f):
+        try:
+            return [nrs(x) for x in np.asarray(f()).ravel()]
+        except Exception:
+            return None
+
+    def pairs(f):
+        try:
+            return [[nrs(l), nrs(r)] for l, r in np.asarray(f()).reshape(-1, 2)]
+        except Exception:
+            return None
+
+    def one(f):
+        try:
+            return nrs(f())
+        except Exception:
+            return None
+
+    if not nd:
+        b = h.binning
+        return [{"numpy_bins": lst(lambda: h.numpy_bins), "edges": lst(lambda: h.edges),
+                 "binning_numpy_bins": lst(lambda: b.numpy_bins), "left": lst(lambda: h.bin_left_edges),
+                 "right": lst(lambda: h.bin_right_edges), "min_edge": one(lambda: h.min_edge), "max_edge": one(lambda: h.max_edge),
+                 "first_edge": one(lambda: b.first_edge), "last_edge": one(lambda: b.last_edge),
+                 "binning_bins": pairs(lambda: b.bins), "bin_count": int(b.bin_count), "h_bin_count": int(h.bin_count),
+                 "shape": [int(x) for x in h.shape]}]
+    out = []
+    for ax, b in enumerate(h.binnings):
+        out.append({"numpy_bins": lst(lambda: h.numpy_bins[ax]), "edges": lst(lambda: h.get_bin_edges(ax)),
+                    "binning_numpy_bins": lst(lambda: b.numpy_bins), "left": lst(lambda: h.get_bin_left_edges(ax)),
+                    "right": lst(lambda: h.get_bin_right_edges(ax)), "first_edge": one(lambda: b.first_edge),
+                    "last_edge": one(lambda: b.last_edge), "binning_bins": pairs(lambda: b.bins),
+                    "bin_count": int(b.bin_count), "shape": [int(x) for x in h.shape]})
+    return out
+
+
+def _kinds_snap(h, nd):
+    from .. import impl1, implnd
+    if h is None:
+        return None
+    snap = implnd.snapn(h) if nd else impl1.snap1(h)
+    snap["_repr"] = _reprs(h, nd)
+    if nd:
+        snap["_binnings"] = [impl1.binning_meta(b) for b in h.binnings]
+    return snap
+
+
+def _kinds_step(s, op, log, nd):
+    from .. import impl1, implnd
+    if op["op"] != "make":
+        return (implnd.step if nd else impl1.step)(s, op, log)
+    try:
+        s.set(op["out"], _make(op))
+        return "ok"
+    except KeyError:
+        raise
+    except Exception as e:          # a refused construction: not what this property is about (the case then checks nothing)
+        log.append(f"make: {type(e).__name__}: {e}"[:200])
+        return "REFUSED"
+
+
+def kinds_run(case):
+    """the history on the real library: "make" here, every other op by the op language of impl1 / implnd; a second run
+    that reads nothing between the operations (see base1.Hist1Prop.run_impl)"""
+    from .. import impl1
+    from ..sharing import sharing
+    nd = case["kind"] == "histn"
+    s, outs, log = impl1.Store(), [], []
+    for op in case["ops"]:
+        ret = _kinds_step(s, op, log, nd)
+        outs.append({"ret": ret, "regs": [_kinds_snap(h, nd) for h in s.regs], "_sharing": sharing(s.regs)})
+    s2, log2, ret = impl1.Store(), [], None
+    for op in case["ops"]:
+        ret = _kinds_step(s2, op, log2, nd)
+    final = {"ret": ret, "regs": [_kinds_snap(h, nd) for h in s2.regs], "_sharing": sharing(s2.regs)}
+    return {"outs": outs, "log": log, "unobserved_outs": outs[:-1] + [final]}
+
+
+def _binning_of_snapshot(meta, bins):
+    """the binning the model is given: the parameters of a fixed-width binning as physt reports them, else the pairs"""
+    if meta.get("t") == "fixed" and meta.get("count", 0) > 0:
+        return {"t": "fixed", "w": meta["w"], "shift": meta["shift"], "tmin": meta["tmin"], "count": meta["count"],
+                "align": True, "adaptive": meta["adaptive"], "ire": meta["ire"]}
+    return {"t": "static", "bins": bins, "ire": meta.get("ire", True)}
+
+
+def kinds_model_case(case, io):
+    """The model is given the histogram as observed just before the merge (however it came about: named methods, growth
+    and set_adaptive are the business of other properties) and runs the merge and what follows it."""
+    m = merge_index(case)
+    outs, ops = io["outs"], case["ops"]
+    if any(o["ret"] == "REFUSED" for o in outs[:m]) or outs[m - 1]["regs"][0] is None:
+        return None
+    src = outs[m - 1]["regs"][0]
+    if any(x is None for x in src["freq"] + src["err2"]):
+        return None
+    mop = model_merge_op(ops[m], outs[m]["ret"]) if ("ak" in ops[m] or "mk" in ops[m]) else copy.deepcopy(ops[m])
+    if mop is None:
+        return None
+    if case["kind"] == "histn":
+        init = {"op": "of_arrays", "out": 0, "axes": [_binning_of_snapshot(b, p) for b, p in zip(src["_binnings"], src["bins"])],
+                "freq": src["freq"], "err2": src["err2"], "missed": src["missed"], "dtype": src["dtype"], "names": src["names"],
+                "keep": src["keep"]}
+    else:
+        init = {"op": "of_arrays", "out": 0, "binning": _binning_of_snapshot(src["binning"], src["bins"]), "freq": src["freq"],
+                "err2": src["err2"], "under": src["under"], "over": src["over"], "inner": src["inner"], "dtype": src["dtype"],
+                "keep": src["keep"]}
+    return {"kind": case["kind"], "ops": [init, mop] + copy.deepcopy(ops[m + 1:])}
+
+
+# set_adaptive(True) is accepted for a FixedWidthBinning that includes its right edge -- a combination the constructor
+# refuses ("Adaptivity does not work together with right-edge inclusion") -- and every later copy() of the histogram, hence
+# every merge_bins() without inplace, then fails with that message.  Whether such a histogram is a valid input of merge_bins
+# is not something the property says; the combination stays out of the generator.
+ENABLE_ADAPTIVE_WITH_RIGHT_EDGE = False
+
+
+# ---- generation
+def _grid_column(rng, n, w, t0, nb):
+    """n values on the grid of width w: cells t0 .. t0+nb-1, the first and the last cell occupied"""
+    ks = [0, nb - 1] + [rng.randrange(nb) for _ in range(max(0, n - 2))]
+    rng.shuffle(ks)
+    return [(t0 + k + rng.choice([0.0, 0.25, 0.5, 0.75])) * w for k in ks[:max(n, 2)]]
+
+
+def kinds_axis(rng, n, kind=None):
+    """one axis of the stream: {"spec", "col" (n doubles), "nb" (expected bin count, None = not predicted), "w" (grid width
+    or None), "fixed" (a FixedWidthBinning results), "adaptive", "tag"}"""
+    kind = kind or rng.choice(["fixed_width"] * 6 + ["human", "pretty", "integer", "integer", "exponential", "quantile", "numpy",
+                                                     "numpy", "edges", "static_gaps", "static_gaps", "fixed_obj", "fixed_obj"])
+    nb = rng.choice([1, 2, 3, 4, 5, 5, 6, 7, 7, 8, 9, 10, 11, 13])
+    t0 = rng.randint(-6, 6)
+    ax = {"w": None, "fixed": False, "adaptive": False, "tag": kind, "nb": None}
+    if kind == "fixed_width":
+        w = rng.choice(FIXED_WIDTHS)
+        ax.update(spec={"k": "fixed_width", "bin_width": rs(w)}, col=_grid_column(rng, n, w, t0, nb), nb=nb, w=w, fixed=True)
+    elif kind in ("human", "pretty"):
+        w = rng.choice(FIXED_WIDTHS)
+        spec = {"k": kind}
+        if rng.random() < 0.6:
+            spec["bin_count"] = rng.randint(1, 12)
+        ax.update(spec=spec, col=_grid_column(rng, n, w, t0, nb), fixed=True)
+    elif kind == "integer":
+        ax.update(spec={"k": "integer"}, col=[float(v // 1) for v in _grid_column(rng, n, 1.0, t0, nb)], nb=nb, w=1.0, fixed=True)
+    elif kind == "exponential":
+        ax.update(spec={"k": "exponential", "bin_count": nb}, col=[rng.choice(EXP_VALUES) for _ in range(n)], nb=nb)
+        if len(set(ax["col"])) < 2:
+            ax["col"][0], ax["col"][-1] = 0.5, 128.0
+    elif kind == "quantile":
+        # distinct values: quantiles of tied data may coincide, and physt refuses bins of no width
+        col = rng.sample([t0 + i / 4 for i in range(4 * n + 8)], n)
+        nb = min(nb, max(1, n - 1), 8)
+        spec = {"k": "quantile", "bin_count": nb}
+        if rng.random() < 0.3:
+            qs = sorted(rng.sample([i / 16 for i in range(1, 16)], nb - 1)) if nb > 1 else []
+            spec = {"k": "quantile", "q": [rs(x) for x in [0.0] + qs + [1.0]]}
+        ax.update(spec=spec, col=col, nb=nb)
+    elif kind == "numpy":
+        col = _grid_column(rng, n, rng.choice([1.0, 0.5, 0.25]), t0, rng.randint(2, 9))
+        ax.update(spec={"k": "count", "n": nb} if rng.random() < 0.6 else {"k": "numpy", "bin_count": nb}, col=col, nb=nb)
+    elif kind == "edges":
+        e = gen1.edges_pool(rng)
+        pairs = [[e[i], e[i + 1]] for i in range(len(e) - 1)]
+        ax.update(spec={"k": "edges", "edges": [rs(x) for x in e]}, col=[v for v in gen1.values_for(rng, pairs, n, nan_share=0)],
+                  nb=len(pairs))
+    elif kind == "static_gaps":
+        pairs, t = gen1.rising_bins(rng, allow_gaps=True)
+        while rng.random() < 0.4 and len(pairs) < 12:
+            l = pairs[-1][1] + rng.choice([0.0, 0.0, 0.5])
+            pairs.append([l, l + rng.choice([0.5, 1.0, 0.25])])
+        form = rng.choice(["static_obj", "static_obj", "derived_obj", "numpy_obj"])
+        ax.update(spec={"k": "obj", "binning": gen1.binning_json(pairs, ire=rng.random() < 0.7, form=form)},
+                  col=gen1.values_for(rng, pairs, n, nan_share=0), nb=len(pairs))
+        ax["tag"] = "static_gaps" if not gen1.is_consecutive_exact(pairs) else "static_obj"
+    else:       # a FixedWidthBinning object: shifted grids, adaptive or not, with or without the right edge
+        w = rng.choice(FIXED_WIDTHS)
+        shift = rng.choice([0.0, 0.0, 0.5 * w, 0.25 * w])
+        adaptive = rng.random() < 0.6
+        ire = (not adaptive) and rng.random() < 0.4
+        ax.update(spec={"k": "obj", "binning": gen1.fixed_json(w, t0, nb, shift, adaptive=adaptive, ire=ire)},
+                  col=[v + shift for v in _grid_column(rng, n, w, t0, nb)], nb=nb, w=w, fixed=True, adaptive=adaptive, ire=ire)
+    return ax
+
+
+def _amount_for(rng, nb):
+    """an amount for `nb` bins and its class: most often one that does not divide the bin count (a shorter last run)"""
+    nb = nb or rng.randint(3, 9)
+    r = rng.random()
+    nondiv = [a for a in range(2, nb) if nb % a]
+    div = [a for a in range(2, nb) if nb % a == 0]
+    if r < 0.5 and nondiv:
+        return rng.choice(nondiv)
+    if r < 0.62 and div:
+        return rng.choice(div)
+    if r < 0.72:
+        return 1
+    if r < 0.84:
+        return nb
+    if r < 0.94:
+        return nb + rng.randint(1, 3)
+    return rng.randint(1, nb + 1)
+
+
+def _states(rng, axes, nd, weights_int):
+    """ops between the construction and the merge that change the STATE of the binning: set_adaptive, growth by fills
+    outside the range, freezing again; updates the expected bin counts"""
+    ops, tags = [], []
+    fixed = [i for i, a in enumerate(axes) if a["fixed"]]
+    late = [i for i in fixed if not axes[i]["adaptive"] and rng.random() < 0.35
+            and (ENABLE_ADAPTIVE_WITH_RIGHT_EDGE or not axes[i].get("ire"))]
+    if late and len(late) == len(axes) and (not nd or rng.random() < 0.5):
+        ops.append({"op": "set_adaptive", "h": 0, "value": True})
+    else:
+        late = late if nd else []
+        ops += [{"op": "set_adaptive", "h": 0, "axis": i, "value": True} for i in late]
+    for i in late:
+        axes[i]["adaptive"] = True
+    if late:
+        tags.append("state:set_adaptive")
+    grow = [i for i, a in enumerate(axes) if a["adaptive"] and a["w"] and rng.random() < 0.5]
+    for _ in range(rng.randint(1, 3) if grow else 0):
+        v = []
+        for i, a in enumerate(axes):
+            x = rng.choice(a["col"])
+            if i in grow and rng.random() < 0.8:
+                lo, hi, w = min(a["col"]), max(a["col"]), a["w"]
+                g = rng.randint(1, 3) + rng.choice([0.0, 0.25, 0.5])
+                x = hi + g * w if rng.random() < 0.6 else lo - g * w
+                a["col"] = a["col"] + [x]
+                a["nb"] = None          # (the grown count is read from the histogram when the tags are made)
+            v.append(x)
+        wt = rng.choice([1, 1, 2, 3]) if weights_int else rng.choice([1, 1, 2])
+        ops.append({"op": "fill", "h": 0, "v": [rs(x) for x in v] if nd else rs(v[0]), "w": str(wt), "wk": "pyint",
+                    "default_w": wt == 1 and rng.random() < 0.5})
+    if grow:
+        tags.append("state:grown")
+    if any(a["adaptive"] for a in axes) and rng.random() < 0.12:
+        frozen = [i for i, a in enumerate(axes) if a["adaptive"]]
+        ops += [{"op": "set_adaptive", "h": 0, "axis": i, "value": False} for i in frozen] if nd else \
+            [{"op": "set_adaptive", "h": 0, "value": False}]
+        for i in frozen:
+            axes[i]["adaptive"] = False
+        tags.append("state:frozen")
+    return ops, tags
+
+
+def _expected_nb(a):
+    """bin count expected on an axis (None when it is not predicted: grown / pretty widths)"""
+    if a["nb"] is not None:
+        return a["nb"]
+    if a["w"] and a["fixed"]:
+        return int((max(a["col"]) - min(a["col"])) / a["w"]) + 1
+    return None
+
+
+def gen_kinds(rng, nd=None):
+    nd = (rng.random() < 0.45) if nd is None else nd
+    d = rng.choice([2, 2, 3]) if nd else 1
+    n = rng.choice([2, 4, 6, 9, 14, 20])
+    started_empty = (not nd) and rng.random() < 0.1
+    if started_empty:
+        # no bins at first: h1(None, "fixed_width", bin_width=w, adaptive=True), every bin comes from a fill
+        w = rng.choice(FIXED_WIDTHS)
+        nb0, t0 = rng.choice([2, 3, 5, 7, 8, 11]), rng.randint(-6, 6)
+        col = _grid_column(rng, max(n, 2), w, t0, nb0)
+        axes = [{"w": w, "fixed": True, "adaptive": True, "tag": "fixed_width", "nb": None, "col": col}]
+        ops = [{"op": "empty", "out": 0, "binning": gen1.fixed_json(w, 0, 0, adaptive=True), "keep": True}]
+        ops += [{"op": "fill", "h": 0, "v": rs(x), "w": "1", "wk": "pyint", "default_w": rng.random() < 0.5} for x in col]
+        tags = ["state:started_empty", "state:adaptive"]
+        weights = None
+    else:
+        axes = [kinds_axis(rng, n) for _ in range(d)]
+        for a in axes:
+            if a["spec"]["k"] not in ("obj", "edges", "count", "numpy", "exponential", "quantile") and rng.random() < 0.55:
+                a["spec"]["adaptive"] = True        # h1(..., adaptive=True) for the methods giving fixed-width bins
+                a["adaptive"] = True
+        nrows = min(len(a["col"]) for a in axes)
+        weights, wkind = gen1.weights_for(rng, nrows, kinds=["none", "none", "none", "int", "dyadic", "equal"])
+        make = {"op": "make", "out": 0, "dim": d, "specs": [a["spec"] for a in axes],
+                "data": [[rs(a["col"][i]) for a in axes] for i in range(nrows)] if nd else [rs(x) for x in axes[0]["col"][:nrows]],
+                "weights": None if weights is None else [rs(x) for x in weights], "wkind": wkind}
+        if nd:
+            make["names"] = rng.sample(["x", "y", "z", "t"], d) if rng.random() < 0.4 else None
+            make["entry"] = "h2" if d == 2 and rng.random() < 0.3 else "h"
+        ops = [make]
+        tags = ["state:adaptive"] if any(a["adaptive"] for a in axes) else []
+    st_ops, st_tags = _states(rng, axes, nd, weights is None or wkind == "int64")
+    ops += st_ops
+    tags += st_tags
+    m = len(ops)
+    op = {"op": "merge", "h": 0, "inplace": rng.random() < 0.45, "out": 1}
+    ax = rng.randrange(d)
+    minfreq = rng.random() < 0.14
+    if nd:
+        if minfreq or rng.random() < 0.7:
+            names = ops[0].get("names")
+            op["axis"] = names[ax] if names and rng.random() < 0.4 else ax
+            op["_axis"] = ax
+    else:
+        op["axis0"] = rng.random() < 0.4
+    if minfreq:
+        op["min_freq"] = rng.choice(["1", "2", "5/2", "3", "7/2", "5", "8"])
+        mode = "minfreq"
+    else:
+        op["amount"] = _amount_for(rng, _expected_nb(axes[ax if "_axis" in op or not nd else rng.randrange(d)]))
+        if rng.random() < 0.12:
+            op["amount"], op["ak"] = str(op["amount"]), rng.choice(NP_INTS)
+        mode = "amount" if (not nd or "_axis" in op) else "all"
+    ops.append(op)
+    # afterwards: values outside the covered range go into the merged histogram
+    res = 0 if op["inplace"] else 1
+    for _ in range(rng.choice([0, 1, 1, 2])):
+        v = []
+        for i, a in enumerate(axes):
+            lo, hi = min(a["col"]), max(a["col"])
+            span = (hi - lo) + (a["w"] or 1.0)
+            x = rng.choice(a["col"])
+            if (not nd) or "_axis" not in op or i == op["_axis"] or rng.random() < 0.3:
+                far = rng.choice([1.0, 1.5, 4.0]) * span + rng.choice([0.0, 0.25, 2.0])
+                x = hi + far if rng.random() < 0.65 else lo - far
+            v.append(x)
+        ops.append({"op": "fill", "h": res, "v": [rs(x) for x in v] if nd else rs(v[0]), "w": rng.choice(["1", "1", "2"]),
+                    "wk": "pyint", "default_w": False})
+    tags += sorted({"binning:" + a["tag"] for a in axes}) + ["mode:" + mode, "stream:kinds_nd" if nd else "stream:kinds1"]
+    if nd:
+        tags.append("nd")
+    return {"kind": "histn" if nd else "hist1", "c10k": True, "m": m, "ops": ops, "tags": tags}
+
+
+# ---- what the property says beyond the clauses on the merge itself
+def _pairs(b):
+    return [(Fraction(l), Fraction(r)) for l, r in b]
+
+
+def well_formed(snap, nd, when):
+    """the histogram's bins through every representation: pairs with l < r in rising order, as many contents as bins, and
+    the same edges from bins / numpy_bins / edges / get_bin_edges / left and right edges / the binning object"""
+    fails = []
+    axes = snap["bins"] if nd else [snap["bins"]]
+    shape = snap["shape"] if nd else [len(snap["bins"])]
+    if not snap.get("_shape_ok", True) or [len(b) for b in axes] != list(shape):
+        fails.append(f"malformed: {when}: contents of shape {shape} for {[len(b) for b in axes]} bins")
+    all_consecutive = all(Fraction(b[i][1]) == Fraction(b[i + 1][0]) for b in axes for i in range(len(b) - 1))
+    for ax, (b, R) in enumerate(zip(axes, snap["_repr"])):
+        pr = _pairs(b)
+        where = f"{when}, axis {ax}" if nd else when
+        if any(l >= r for l, r in pr) or any(pr[i][1] > pr[i + 1][0] for i in range(len(pr) - 1)):
+            fails.append(f"malformed: {where}: the bins {b} are not rising bins of positive width")
+            continue
+        if not pr:
+            continue
+        want = {"left": [x[0] for x in b], "right": [x[1] for x in b], "binning_bins": [list(x) for x in b],
+                "bin_count": len(b), "first_edge": b[0][0], "last_edge": b[-1][1]}
+        if not nd:
+            want.update(min_edge=b[0][0], max_edge=b[-1][1], h_bin_count=len(b))
+        if all(pr[i][1] == pr[i + 1][0] for i in range(len(pr) - 1)):
+            e = [b[0][0]] + [x[1] for x in b]
+            want.update(binning_numpy_bins=e)
+            if all_consecutive:     # (the N-d histogram builds the edge arrays of all its axes at once: none if one has gaps)
+                want.update(numpy_bins=e, edges=e)
+        for key, w in want.items():
+            if R.get(key) != w:
+                fails.append(f"representation: {where}: {key} reads {R.get(key)} while the bins are {b}")
+                break
+        if R.get("shape") != list(shape):
+            fails.append(f"representation: {where}: shape reads {R.get('shape')}, the contents have shape {list(shape)}")
+    return fails[:3]
+
+
+def _embed(old, new):
+    """offset at which the bins `old` sit, in order and adjacent, among the bins `new` (None: they do not)"""
+    for o in range(len(new) - len(old) + 1):
+        if new[o:o + len(old)] == old:
+            return o
+    return None
+
+
+def post_fill(before, after, op, ret, nd):
+    """a fill of a value outside the covered range after the merge: the merged bins stay bins (where they were, with their
+    contents and squared errors) and nothing is lost -- the weight is in a bin or among the missed ones"""
+    np = _np()
+    if ret == "REFUSED" or before is None or after is None:
+        return []
+    ob = before["bins"] if nd else [before["bins"]]
+    nbins = after["bins"] if nd else [after["bins"]]
+    v = [Fraction(x) for x in (op["v"] if nd else [op["v"]])]
+    outside = [bool(b) and (x < Fraction(b[0][0]) or x > Fraction(b[-1][1])) for b, x in zip(ob, v)]
+    if not any(outside):
+        return []
+    offs = [_embed(_pairs(b), _pairs(c)) for b, c in zip(ob, nbins)]
+    for ax, o in enumerate(offs):
+        if o is None:
+            return [f"post_fill_edges: filling {op['v']} (outside the range) after merge_bins moved the merged edges"
+                    f"{' of axis ' + str(ax) if nd else ''}: {ob[ax]} -> {nbins[ax]}"]
+    oshape = [len(b) for b in ob]
+    nshape = [len(b) for b in nbins]
+    w = Fraction(op["w"])
+    fails = []
+    for key in ("freq", "err2"):
+        if any(x is None for x in before[key] + after[key]):
+            return fails
+        O = np.array([Fraction(x) for x in before[key]], dtype=object).reshape(oshape)
+        N = np.array([Fraction(x) for x in after[key]], dtype=object).reshape(nshape)
+        sub = N[tuple(slice(o, o + k) for o, k in zip(offs, oshape))]
+        if sub.shape != O.shape or any(a != b for a, b in zip(sub.ravel(), O.ravel())):
+            fails.append(f"post_fill_content: filling {op['v']} (outside the range) after merge_bins changed the {key} of the "
+                         f"merged bins: {before[key]} -> {after[key]} (bins {before['bins']} -> {after['bins']})")
+            return fails
+        if key == "freq":
+            lost_from, lost_to = sum(O.ravel(), Fraction(0)), sum(N.ravel(), Fraction(0))
+    miss = ["missed"] if nd else ["under", "over", "inner"]
+    if before.get("keep") and after.get("keep") and all(before[k] is not None and after[k] is not None for k in miss):
+        b_all = lost_from + sum(Fraction(before[k]) for k in miss)
+        a_all = lost_to + sum(Fraction(after[k]) for k in miss)
+        if a_all != b_all + w:
+            fails.append(f"post_fill_lost: filling {op['v']} with weight {w} after merge_bins: contents + missed went from "
+                         f"{b_all} to {a_all}")
+    return fails
+
+
+def kinds_extra(case, io):
+    """clauses of the kinds stream evaluated after the clauses on the merge itself held"""
+    nd = case["kind"] == "histn"
+    m = merge_index(case)
+    outs, ops = io["outs"], case["ops"]
+    if outs[m]["ret"] != "ok":
+        return []
+    res_reg = ops[m]["h"] if ops[m].get("inplace") else ops[m]["out"]
+    fails = well_formed(outs[m]["regs"][res_reg], nd, "after merge_bins")
+    for k in range(m + 1, len(ops)):
+        if fails:
+            break
+        o = ops[k]
+        if o["op"] != "fill" or o["h"] >= len(outs[k]["regs"]):
+            continue
+        fails += post_fill(outs[k - 1]["regs"][o["h"]], outs[k]["regs"][o["h"]], o, outs[k]["ret"], nd)
+        if not fails and outs[k]["ret"] != "REFUSED":
+            fails += well_formed(outs[k]["regs"][o["h"]], nd, f"after filling {o['v']} into the merged histogram")
+    return fails[:4]
+
+
+def kinds_tags(case, io):
+    """how the amount relates to the bin count actually met on the merged axis (axes), and the state met"""
+    m = merge_index(case)
+    op = case["ops"][m]
+    try:
+        src = io["outs"][m - 1]["regs"][op["h"]]
+        nd = case["kind"] == "histn"
+        counts = src["shape"] if nd else [len(src["bins"])]
+        if "_axis" in op:
+            counts = [counts[op["_axis"]]]
+        t = ["src_adaptive:" + str(bool(src["adaptive"])).lower()]
+        if op.get("amount") is not None:
+            a = int(Fraction(op["amount"]))
+            for n in counts:
+                t.append("amount_rel:" + ("one" if a == 1 else "eq" if a == n else "gt" if a > n else "div" if n % a == 0 else "shorter_last_run"))
+        return sorted(set(t))
+    except Exception:
+        return ["setup_refused"]
+
+
+def _retarget(c, m):
+    """the fills after the merge go into its result"""
+    op = c["ops"][m]
+    for o in c["ops"][m + 1:]:
+        o["h"] = op["h"] if op.get("inplace") else op["out"]
+    return c
+
+
+def kinds_shrink(case):
+    """no fills after the merge, fewer state changes before it, fewer data points / no weights, the plain call (copy, no
+    axis argument, python integer) -- the merge stays at position case["m"], the later fills go into its result"""
+    m = merge_index(case)
+    ops = case["ops"]
+    for k in range(len(ops) - 1, m, -1):
+        c = copy.deepcopy(case)
+        del c["ops"][k]
+        yield c
+    fills = [k for k in range(1, m) if ops[k]["op"] == "fill"]
+    for k in range(m - 1, 0, -1):
+        if ops[0]["op"] == "empty" and ops[k]["op"] == "fill" and len(fills) <= 1:
+            continue            # a histogram without bins has nothing to merge
+        c = copy.deepcopy(case)
+        del c["ops"][k]
+        c["m"] = m - 1
+        yield c
+    mk = ops[0]
+    if mk["op"] == "make":
+        for j in range(len(mk["data"]) - 1, -1, -1):
+            if len(mk["data"]) <= 2:
+                break
+            c = copy.deepcopy(case)
+            del c["ops"][0]["data"][j]
+            if c["ops"][0].get("weights") is not None:
+                del c["ops"][0]["weights"][j]
+            yield c
+        if mk.get("weights") is not None:
+            c = copy.deepcopy(case)
+            c["ops"][0]["weights"] = None
+            yield c
+    op = ops[m]
+    for key in ("inplace", "axis0"):
+        if op.get(key):
+            c = copy.deepcopy(case)
+            c["ops"][m][key] = False
+            yield _retarget(c, m)
+    if "ak" in op:
+        c = copy.deepcopy(case)
+        c["ops"][m].pop("ak")
+        c["ops"][m]["amount"] = int(Fraction(c["ops"][m]["amount"]))
+        yield c
+
+
+def kinds_neighbours(case):
+    """the same histogram in the same state merged by every amount, in place and as a copy"""
+    m = merge_index(case)
+    for inplace in (False, True):
+        for a in range(1, 15):
+            c = copy.deepcopy(case)
+            o = c["ops"][m]
+            o.pop("min_freq", None); o.pop("mk", None); o.pop("ak", None)
+            o["amount"], o["inplace"] = a, inplace
+            yield _retarget(c, m)
+
+
+def kinds_grid():
+    """a fixed small scope of the kinds stream: fixed-width histograms of 1 .. 7 bins (unit width; 0.1 for 7 bins) made
+    adaptive by the constructor / by set_adaptive afterwards / not at all x every amount 1 .. n+1 x copy / in place, each
+    followed by a fill beyond the last edge; and a 5 x 3 adaptive 2-D histogram merged on each axis and on both"""
+    k = 0
+    for nb in (1, 2, 3, 5, 6, 7):
+        w = 0.1 if nb == 7 else 1.0
+        col = [(i + f) * w for i in range(nb) for f in ((0.5, 0.25) if i % 2 else (0.5,))]
+        for state in ("adaptive", "set_adaptive", "plain"):
+            for a in range(1, nb + 2):
+                k += 1
+                spec = {"k": "fixed_width", "bin_width": rs(w)}
+                if state == "adaptive":
+                    spec["adaptive"] = True
+                ops = [{"op": "make", "out": 0, "dim": 1, "specs": [spec], "data": [rs(x) for x in col], "weights": None, "wkind": None}]
+                if state == "set_adaptive":
+                    ops.append({"op": "set_adaptive", "h": 0, "value": True})
+                inplace = k % 2 == 0
+                ops.append({"op": "merge", "h": 0, "inplace": inplace, "out": 1, "axis0": k % 3 == 0, "amount": a})
+                ops.append({"op": "fill", "h": 0 if inplace else 1, "v": rs((nb + 2.5) * w * 2), "w": "1", "wk": "pyint", "default_w": False})
+                yield {"kind": "hist1", "c10k": True, "m": len(ops) - 2, "ops": ops,
+                       "tags": ["stream:kinds_grid", "binning:fixed_width", "mode:amount"] + (["state:" + state] if state != "plain" else [])}
+    rows = [[i + 0.5, (j + 0.5) * 0.5] for i in range(5) for j in range(3) if (i + j) % 3 != 1]
+    for axis in (0, 1, None):
+        for a in (2, 3, 4):
+            for inplace in (False, True):
+                ops = [{"op": "make", "out": 0, "dim": 2, "specs": [{"k": "fixed_width", "bin_width": "1", "adaptive": True},
+                                                                   {"k": "fixed_width", "bin_width": "1/2", "adaptive": True}],
+                        "data": [[rs(x) for x in r] for r in rows], "weights": None, "wkind": None, "names": None, "entry": "h"}]
+                op = {"op": "merge", "h": 0, "inplace": inplace, "out": 1, "amount": a}
+                if axis is not None:
+                    op["axis"] = op["_axis"] = axis
+                ops += [op, {"op": "fill", "h": 0 if inplace else 1, "v": ["19/2", "17/4"], "w": "1", "wk": "pyint", "default_w": False}]
+                yield {"kind": "histn", "c10k": True, "m": 1, "ops": ops,
+                       "tags": ["stream:kinds_grid", "binning:fixed_width", "nd", "state:adaptive", "mode:" + ("amount" if axis is not None else "all")]}
+
+
 class C10(Hist1Prop):
     ID = "C10"
-    N_QUICK = 400
-    N_THOROUGH = 10000
+    N_QUICK = 480
+    N_THOROUGH = 12000
     RULE = ("1-D histograms with 1-12 bins (irregular widths, gaps, tiny gaps), arbitrary contents / errors / missed values x "
             "merge_bins(amount = 1..n+1, or non-integral, or 0) x inplace / copy x axis None / 0, and merge_bins(min_frequency) "
             "with thresholds around the contents; int64 / float64 contents and squared errors beyond 2**53 (given directly, or "
             "counts times a large python integer; 1-D, transformed 1-D classes and N-d) whose run sums are exact; the amount and "
             "the threshold in every numeric carrier (python int / float, numpy integers and floats of all widths, long double, "
-            "0-d arrays, Fraction, Decimal), integral, non-integral, zero, negative and above the bin count. "
+            "0-d arrays, Fraction, Decimal), integral, non-integral, zero, negative and above the bin count; histograms whose "
+            "axis binning comes from a named method of the facade or a binning object (fixed_width, human / pretty, integer, "
+            "exponential, quantile, integer bin count, edge array, FixedWidthBinning with a shift, StaticBinning with gaps) in "
+            "every state (adaptive from the constructor, set_adaptive afterwards, grown by fills, started without bins, frozen), "
+            "1-D and per axis of N-d, amounts leaving a shorter last run / 1 / the bin count / above it, min_frequency, "
+            "followed by fills outside the covered range; the merged histogram read through every representation of its bins. "
             "non-trivial = at least two bins are merged; distinct = hash of the op list")
     FIELDS = {"bins", "freq", "err2", "under", "over", "inner", "total", "dtype", "keep"}
 
     def gen_case(self, rng, k, tier):
         r = rng.random()
+        if r >= 1 - KINDS_SHARE:
+            return gen_kinds(rng)
         if r < 0.11:
             return gen_big1(rng)
         if r < 0.23:
@@ -285,7 +929,8 @@ class C10(Hist1Prop):
 
     def exhaustive_cases(self, tier):
         """a fixed 7-bin 1-D histogram and a fixed 4x3 histogram x every carrier x {non-integral, integral} amounts x
-        inplace / copy (N-d: one axis / all axes), and the textbook large integers in 1-D"""
+        inplace / copy (N-d: one axis / all axes), the textbook large integers in 1-D, and the small scope of the kinds
+        stream (kinds_grid)"""
         b1 = gen1.binning_json([[float(i), float(i + 1)] for i in range(7)], form="static_obj")
         init1 = {"op": "of_arrays", "out": 0, "binning": b1, "freq": [str(x) for x in (1, 2, 0, 3, 1, 1, 4)], "err2": None,
                  "under": "1", "over": "2", "inner": "0", "dtype": "int64", "keep": True}
@@ -305,6 +950,7 @@ class C10(Hist1Prop):
                     if k % 3 != 0:
                         op["axis"] = op["_axis"] = k % 2
                     yield {"kind": "histn", "ops": [copy.deepcopy(initn), op], "tags": tags + ["nd"]}
+        yield from kinds_grid()
         big = 2**53
         for vals in ([big + 1, 1, 3, big + 3, 7], [big + 1, big + 1, big + 1, 1, 1, 2**60 + 3, 2**60 + 5]):
             for amount in (2, 3):
@@ -319,6 +965,8 @@ class C10(Hist1Prop):
     def run_impl(self, case):
         # the two malformed merges are executed here (they are not part of the generic op language)
         from .. import impl1
+        if case.get("c10k"):
+            return kinds_run(case)
         op = case["ops"][1]
         if op["op"] != "invalid" or case.get("kind") == "histn":
             return super().run_impl(case)
@@ -341,6 +989,8 @@ class C10(Hist1Prop):
     def model_case(self, case, io):
         """the op list in the model's language: integral amounts as natural numbers whatever carried them; classes with
         transformed coordinates as plain 1-D histograms (merging does not look at the transformation)"""
+        if case.get("c10k"):
+            return kinds_model_case(case, io)
         m = merge_index(case)
         op = case["ops"][m]
         if op.get("op") != "merge" or not ("ak" in op or "mk" in op or any("klass" in o for o in case["ops"])):
@@ -354,11 +1004,27 @@ class C10(Hist1Prop):
             o.pop("klass", None)
         return c
 
+    def diff(self, case, model_ok, io):
+        if not case.get("c10k"):
+            return super().diff(case, model_ok, io)
+        # the model started from the state observed before the merge: its outputs are compared from there on
+        from ..runner import diff_outputs
+        m = merge_index(case)
+        tail = [{"ret": "ok", "regs": io["outs"][m - 1]["regs"][:1]}] + list(io["outs"][m:])
+        return diff_outputs(model_ok, tail, self.FIELDS | {"missed"}, None)
+
+    def tags(self, case, io):
+        t = super().tags(case, io)
+        return t + kinds_tags(case, io) if case.get("c10k") else t
+
     def shrink_candidates(self, case):
         """fewer bins (1-D: the last bin goes; N-d: the last bin of one axis), no explicit squared errors, the plain
         call (copy, no axis argument), python carriers -- the merge under test stays the last op"""
         m = merge_index(case)
         if case["ops"][m].get("op") != "merge":
+            return
+        if case.get("c10k"):
+            yield from kinds_shrink(case)
             return
         if case.get("kind") == "histn":
             from . import nd_parts
@@ -404,6 +1070,9 @@ class C10(Hist1Prop):
         op = case["ops"][m]
         if op.get("op") != "merge":
             return
+        if case.get("c10k"):
+            yield from kinds_neighbours(case)
+            return
         if case.get("kind") == "histn":
             nb = max(len(a["bins"]) if a["t"] == "static" else a["count"] for a in case["ops"][0]["axes"])
         else:
@@ -427,6 +1096,19 @@ class C10(Hist1Prop):
                 yield c
 
     def oracle(self, case, io):
+        if case.get("c10k"):
+            # a construction physt refuses (say, quantiles of tied data) leaves nothing to merge: not this property's business
+            m = merge_index(case)
+            if any(o["ret"] == "REFUSED" for o in io["outs"][:m]):
+                return []
+            src = io["outs"][m - 1]["regs"][case["ops"][m]["h"]]
+            if not src["bins"] or (case["kind"] == "histn" and not all(src["bins"])):
+                return []           # no bins (yet): nothing to merge, nothing pinned
+            fails = self.merge_oracle(case, io)
+            return fails or kinds_extra(case, io)
+        return self.merge_oracle(case, io)
+
+    def merge_oracle(self, case, io):
         if case.get("kind") == "histn":
             from . import nd_parts
             return nd_parts.c10_oracle(case, io)
